@@ -134,3 +134,19 @@ func Run(c *Case, f func()) (r *Result) {
 }
 
 func hasPrefix(s, p string) bool { return len(s) >= len(p) && s[:len(p)] == p }
+
+func Implies(a, b bool) bool { return !a || b }
+func And(a, b bool) bool     { return a && b }
+func Or(a, b bool) bool      { return a || b }
+func IteU64(c bool, a, b uint64) uint64 {
+	if c {
+		return a
+	}
+	return b
+}
+func IteInt(c bool, a, b int) int {
+	if c {
+		return a
+	}
+	return b
+}
